@@ -262,6 +262,34 @@ def corpus_docs() -> list[tuple[str, dict]]:
     return out
 
 
+def resource_tag_docs() -> list:
+    """Tags spelled like a schema of the document (resource-named tags): the tag's endpoint module and the model's module
+    share a file name (endpoints/pet.py, models/pet.py). One operation per position in which the schema can appear."""
+    R = lambda n: {"$ref": f"#/components/schemas/{n}"}  # noqa
+    out = []
+    for tag in ("Pet", "pet", "Status"):
+        for pos in ("response", "array_response", "body_required", "body_optional", "multi_media_required", "multi_media_optional", "enum_param"):
+            op: dict = {"operationId": "updatePet", "tags": [tag], "responses": {"204": {"description": "done"}}}
+            if pos == "response":
+                op["responses"] = {"200": {"description": "ok", "content": {"application/json": {"schema": R("Pet")}}}}
+            elif pos == "array_response":
+                op["responses"] = {"200": {"description": "ok", "content": {"application/json": {"schema": {"type": "array", "items": R("Pet")}}}}}
+            elif pos.startswith("body") or pos.startswith("multi"):
+                content = {"application/json": {"schema": R("Pet")}}
+                if pos.startswith("multi"):
+                    content["multipart/form-data"] = {"schema": {"type": "object", "properties": {"file": {"type": "string", "format": "binary"}}}}
+                op["requestBody"] = {"required": pos.endswith("required"), "content": content}
+                op["responses"] = {"200": {"description": "ok", "content": {"application/json": {"schema": R("Pet")}}}}
+            else:
+                op["parameters"] = [{"name": "status", "in": "query", "schema": R("Status")}]
+            doc = {"openapi": "3.0.3", "info": {"title": "T", "version": "1"}, "paths": {"/op1/pets": {"put": op}},
+                   "components": {"schemas": {"Pet": {"type": "object", "properties": {"name": {"type": "string"}, "status": R("Status")}},
+                                              "Status": {"type": "string", "enum": ["new", "sold"]}}}}
+            d = specgen.Doc(doc, {"Pet": {"kind": "object"}, "Status": {"kind": "enum"}}, [{}], {"tag_named_like_a_schema", f"resource_tag_{pos}"})
+            out.append(d)
+    return out
+
+
 def run_shard(ctx: Ctx) -> None:
     common.use_repo()
     total = 40 if ctx.quick else 1200
@@ -280,6 +308,7 @@ def run_shard(ctx: Ctx) -> None:
     for ci, chunk in enumerate(chunks):
         if ctx.mine(ci):
             extra += [shapes.document(chunk), shapes.response_document(chunk), shapes.request_document(chunk)]
+    extra += [d for i, d in enumerate(resource_tag_docs()) if ctx.mine(i)]
     for k, d in enumerate(extra):
         d.features = set(d.features) | {"schema_shapes"}
         ctx.rec.count("schema_shape_documents")
